@@ -2,6 +2,7 @@ import Poulpy.Driver.Util
 import Poulpy.Model.Core.Ks
 import Poulpy.Model.Core.Pack
 import Poulpy.Model.Core.KsMat
+import Poulpy.Model.Core.KsGgsw
 
 /-!
 Model driver for the key-switching family — command word `ks`.
@@ -87,6 +88,16 @@ def handle (ts : List String) : String :=
   let matA : Mat := { base2k := bin, dsize := kvNat ts "adsize", dnum := matCts.length / (max r0 1), rankIn := r0,
                       rankOut := (matCts.getD 0 (mkCt bin n [])).rank, cts := matCts }
   let showMat (l : List Ct) : String := "/".intercalate (l.map (fun c => showCt c.cols))
+  -- GGSW operations: `a=<cells (row, column) joined by />`, `tsk=<GGLWE@GGLWE…>` (the `rank` tensor keys)
+  let isGgsw := op.startsWith "ggsw_"
+  let ggswCells : List Ct := if isGgsw then (((kv ts "a").getD "-").splitOn "/").map (fun t => mkCt bin n (parseCt t)) else []
+  let ggswCol0 : List Ct := (List.range (ggswCells.length / (rin + 1))).map (fun r => ggswCells.getD (r * (rin + 1)) (mkCt bin n []))
+  let tskKeys : List (List (List Col)) :=
+    if isGgsw then (((kv ts "tsk").getD "-").splitOn "@").map (fun g => (g.splitOn "/").map parseCt) else []
+  let tskSize := (((tskKeys.getD 0 []).getD 0 []).getD 0 []).length
+  let tsk : Core.ToGGSWKey := { base2k := bkey, n := n, rank := rin, dsize := dsize, dnum := (tskKeys.getD 0 []).length / (max rin 1),
+                                size := tskSize, keys := tskKeys }
+  let showCells (l : List (List Col)) : String := "/".intercalate (l.map showCt)
   let dft0 : Buf := { zeroBuf n (rout + 1) key.size with
     data := List.replicate (rout + 1) (List.replicate key.size (List.replicate n dv)) }
   match op with
@@ -107,6 +118,10 @@ def handle (ts : List String) : String :=
   | "atk_auto" => showOut (atkAutomorphism big128 n bout sout (kvNat ts "rdnum") (kvNat ts "adsize") matP matA key)
       (fun r => toString r.1 ++ ":" ++ showMat r.2)
   | "atk_auto_assign" => showOut (atkAutomorphismAssign big128 n matP matA key) (fun r => toString r.1 ++ ":" ++ showMat r.2)
+  | "ggsw_ks" => showOut (ggswKeyswitch big128 n bout sout (kvNat ts "rdnum") (kvNat ts "adsize") bin (kvNat ts "adsize") ggswCol0 key tsk) showCells
+  | "ggsw_ks_assign" => showOut (ggswKeyswitchAssign big128 n ggswCol0 key tsk) showCells
+  | "ggsw_auto" => showOut (ggswAutomorphism big128 n bout sout (kvNat ts "rdnum") (kvNat ts "adsize") bin (kvNat ts "adsize") ggswCol0 key tsk) showCells
+  | "ggsw_auto_assign" => showOut (ggswAutomorphismAssign big128 n ggswCol0 key tsk) showCells
   | "pack" => ct (pack big128 n bkey keys bout sout slotCts (kvNat ts "lgap"))
   | "packer" =>
     ct (packerRun big128 n keys bout sout rin (kvNat ts "lgap") (fun k => SlotMap.get slotCts k)
